@@ -66,3 +66,38 @@ def certificates(rows, shard=6, timeout=900):
         else:
             res += [v.strip() == "true" for v in vals]
     return res
+
+
+CERT3_HEADER = """From Coq Require Import List ZArith NArith Bool.
+Import ListNotations.
+From PyccoloV Require Import model.Tree model.Erase model.Sites.
+Local Open Scope N_scope.
+"""
+
+
+def certificates3(rows, shard=6, timeout=900, prefix="rw_cert3"):
+    """rows: list of (src_tree_text, out_tree_text, [subscribed event names]).
+    Returns per row None (coqc failed) or dict(erase=bool, sites=bool, site_events=bool)."""
+    ev = json.load(open(lib.os.path.join(lib.COQ, "gen", "events.json")))["events"]
+    code = {e: 1000 + i for i, e in enumerate(ev)}
+    shards = [(i, rows[i:i + shard]) for i in range(0, len(rows), shard)]
+    texts = []
+    for i, rs in shards:
+        L = [CERT3_HEADER]
+        for j, (s, o, sub) in enumerate(rs):
+            subs = "; ".join(str(code[e]) for e in sub)
+            L.append("Definition s%d := %s.\nDefinition o%d := %s.\nEval vm_compute in (check_erase s%d o%d, check_sites s%d o%d, check_site_events [%s] o%d)."
+                     % (j, s, j, o, j, j, j, j, subs, j))
+        texts.append(("%s_%d" % (prefix, i), "\n".join(L) + "\n"))
+    outs = lib.coq_eval_many(texts, timeout=timeout)
+    res = []
+    for i, rs in shards:
+        rc, out = outs["%s_%d" % (prefix, i)]
+        vals = lib.parse_marked(out) if rc == 0 else []
+        if rc != 0 or len(vals) != len(rs):
+            res += [None] * len(rs)
+        else:
+            for v in vals:
+                b = [x.strip() == "true" for x in v.strip("() ").split(",")]
+                res.append({"erase": b[0], "sites": b[1], "site_events": b[2]} if len(b) == 3 else None)
+    return res
